@@ -134,6 +134,16 @@ Theorem C09_src_bwd_shift : forall cfg l r t e0 left, pos_rows l -> 0 <= left ->
   = lift_shift (bwd_shift cfg l r t e0 left).
 Proof. exact src_bwd_shift_eq. Qed.
 
+(* ---- source-text tie for the recursive pass (gen/SrcPass.v: ForwardScheduler.__forward_pass / BackwardScheduler.__backward_pass translated from schedule.py on every run;
+   Sched/SrcPassEquivF.v / SrcPassEquivB.v relates it to the model's pass for every input, Sched/SrcPassProps.v transports the theorems):
+   what follows is about the TRANSLATED SOURCE called once per root as calc does ([src_roots_fold]) after calc's pre-checks. ---- *)
+From PJ Require Import gen.SrcPass Sched.SrcPassRel Sched.SrcPassEquivF Sched.SrcPassEquivB Sched.SrcPassProps.
+
+Theorem C09_src_backward_pass : forall cfg w ds l cl, isolated_ok w = true ->
+  src_roots_fold src_bwd_pass cfg w (rev (roots w)) = Ok (ds, l, cl) ->
+  WFin w -> cap_nonneg cfg -> members_first w -> c09_b cfg w (obs_of w (src_sst (ds, l, cl))) = true.
+Proof. exact src_bwd_c09_oracle. Qed.
+
 Print Assumptions C09_deadline.
 Print Assumptions C09_deps.
 Print Assumptions C09_deps_below.
@@ -147,3 +157,4 @@ Print Assumptions C09_backward_passes_oracle.
 Print Assumptions C09_example.
 Print Assumptions C09_src_bwd_nearest.
 Print Assumptions C09_src_bwd_shift.
+Print Assumptions C09_src_backward_pass.
